@@ -7,4 +7,4 @@ mkdir -p "$S"
 git -C /repo worktree add -q --detach "$S/wt" HEAD
 trap 'git -C /repo worktree remove --force "$S/wt"; rm -rf "$S"' EXIT
 git -C "$S/wt" apply "$P"
-VERIF_REPO="$S/wt" VERIF_OUT="$S/out" /verif/bin/gowp "$@" -repo "$S/wt" || true
+VERIF_REPO="$S/wt" VERIF_OUT="$S/out" /verif/bin/gowp "$@" || true
